@@ -1391,6 +1391,33 @@ func streamChunk(e *Emitter, rng *rand.Rand, tier string) {
 		b, _ := json.Marshal(other)
 		e.Emit("e2e_pair " + hex.EncodeToString(a) + " " + hex.EncodeToString(b))
 	}
+	// directed: a response body of zero bytes delivered by one empty Write call, against the same without any Write
+	// call (seeded change C08_6 was reported by one seed in three before this family existed)
+	for k := 0; k < n/20; k++ {
+		for try := 0; try < 4000; try++ {
+			scratch := &Emitter{kinds: map[string]int{}, classes: map[string]int{}, nontriv: map[string]struct{}{}}
+			sc := genScenario(scratch, rng)
+			writes, empty := 0, -1
+			for j, op := range sc.Script {
+				if op[0] == "write" {
+					writes++
+					if op[1] == "-" {
+						empty = j
+					}
+				}
+			}
+			if sc.Expect == nil || writes != 1 || empty < 0 || sc.Duplex {
+				continue
+			}
+			a, _ := json.Marshal(normalizeSegmentation(sc))
+			other := *sc
+			other.Script = append(append([][]string{}, sc.Script[:empty]...), sc.Script[empty+1:]...)
+			b, _ := json.Marshal(normalizeSegmentation(&other))
+			e.Class("directed:zero-length-body-empty-write-vs-no-write")
+			e.Emit("e2e_pair " + hex.EncodeToString(a) + " " + hex.EncodeToString(b))
+			break
+		}
+	}
 }
 
 func init() {
